@@ -183,6 +183,10 @@ for _ in range(12 if tier == "quick" else 120):
     k_ = rng.choice([2, 3, 6, 12])
     spellings = ["(%s)(%s)%d" % (u1, u2, k_), "(%s) %d%s" % (u1, k_, u2), "(%s)+%d%s" % (u1, k_, u2), "%s (%s)%d" % (u1, u2, k_),
                  "%s+%d%s" % (u1, k_, u2), "%s %d%s" % (u1, k_, u2), "%d%s + %s" % (k_, u2, u1)]
+    if rng.random() < 0.5:
+        # an absent component written with a zero count (the x = 0 end of a composition series)
+        u3 = rng.choice([u for u in ("Sr", "Na", "Gd", "Cl") if u not in u1 + u2])
+        spellings += ["%s(%s)%d%s0.00" % (u1, u2, k_, u3), "%s0.0 %s (%s)%d" % (u3, u1, u2, k_), "(%s)(%s)%d(%s2)0.0" % (u1, u2, k_, u3)]
     ref_ = None
     for sp in spellings:
         stats["string_spellings"] += 1
